@@ -183,10 +183,20 @@ def run_status_inputs(dir_exists: bool, n_sarif: int, t0: int, t1: int, e0: bool
     """run(): status for every combination of target-directory / result-file conditions (AI settings consistent,
     report writable): 1 iff the directory or a supplied result file is missing or two SARIF inputs come from the
     same tool (an empty file name produced by a trailing comma counts as a missing file), else 0 and the report is written.
-    pre: 0 <= n_sarif <= 2
+    (0-1 SARIF inputs here; two SARIF inputs in run_status_two_sarif.)
+    pre: 0 <= n_sarif <= 1
     post: _
     """
     return run_status(dir_exists, n_sarif, t0, t1, e0, e1, has_sonar, sonar_exists, has_dd, dd_exists, 0, 0, 0, 0, True, True, False, empty_name, hotspots)
+
+
+def run_status_two_sarif(dir_exists: bool, t0: int, t1: int, e0: bool, e1: bool, has_sonar: bool, sonar_exists: bool) -> bool:
+    """run() with TWO SARIF inputs: every pair of detected tools (first file: Semgrep, CodeQL, another tool, Semgrep
+    preceded by a malformed run; second: Semgrep, CodeQL, another tool) x each file existing or not x an optional Sonar
+    file: 1 iff something is missing or both files belong to the same registered tool, else 0 with the report written.
+    post: _
+    """
+    return run_status(dir_exists, 2, t0, t1, e0, e1, has_sonar, sonar_exists, False, True, 0, 0, 0, 0, True, True, False, False, False)
 
 
 def run_status_ai_report(sonar_missing: bool, az_key: int, az_ep: int, ll_key: int, ll_ep: int, has_output: bool, report_writable: bool, dry_run: bool, value_error: bool = False) -> bool:
@@ -213,7 +223,7 @@ def run_status(dir_exists: bool, n_sarif: int, t0: int, t1: int, e0: bool, e1: b
     _install()
     ENV.exists = {"D": dir_exists, "S0": e0, "S1": e1, "J1": sonar_exists, "J2": dd_exists, "J3": True}
     ENV.match_args = None
-    ENV.sarif_tool = {"S0": _tool(t0), "S1": _tool(t1)}
+    ENV.sarif_tool = {"S0": _tool(t0), "S1": _tool(t1 % 3)}  # the malformed-first file is the FIRST input (4 x 3 tool pairs)
     ENV.env = {}
     # each variable: 0 absent, 1 exported but empty (counts as not configured), 2 set
     for name, v, val in (("CODEMODDER_AZURE_OPENAI_API_KEY", az_key, "k"), ("CODEMODDER_AZURE_OPENAI_ENDPOINT", az_ep, "https://e"),
@@ -354,7 +364,8 @@ def planted_status_dropped(report_writable: bool) -> bool:
 
 
 def warmup():
-    run_status_inputs(True, 2, 0, 1, True, True, True, True, True, True, False, False)
+    run_status_two_sarif(True, 0, 1, True, True, True, True)
+    run_status_inputs(True, 1, 0, 1, True, True, True, True, True, True, False, False)
     run_status_inputs(True, 0, 0, 1, True, True, True, True, False, True, True, True)
     run_status_ai_report(False, 2, 2, 0, 1, True, True, True)
     run_status(True, 2, 0, 1, True, True, True, True, True, True, 2, 2, 0, 0, True, True, True)
@@ -386,7 +397,8 @@ SPEC = {
     "stubs": ["os.path.exists", "Path (result files)", "entry_points (real detector classes)", "os.getenv", "open (report)", "AzureOpenAI/OpenAI/ChatCompletionsClient constructors", "registry / providers / PythonRepoManager / apply_codemods / find_semgrep_results / log functions"],
     "outside": ["argument vectors outside the vocabulary", "OS-level reasons why a report is unwritable (modelled as open() raising)", "exit status of uncaught exceptions inside codemods (C10)"],
     "xh": [
-        Xh("run_status_inputs", 300, 900),
+        Xh("run_status_inputs", 400, 900),
+        Xh("run_status_two_sarif", 400, 900),
         Xh("run_status_ai_report", 300, 900),
         Xh("cli_status", 200, 400),
         Xh("planted_status_dropped", 60, 120, twin=False, expect="refuted"),
